@@ -185,8 +185,7 @@ func (i UInt) ExponentiateUInt(other UInt) UInt {
 		return 1
 	}
 	result := i
-	var j UInt
-	for j = 2; j <= other; j++ {
+	for j := other; j > 1; j-- {
 		result *= i
 	}
 	return result
